@@ -107,19 +107,20 @@ Lemma q_promote_one_SL : forall a st L T readies dropped st1,
   q_promote_one a st = (readies, dropped, st1) ->
   SL st1 (readies ++ dropped ++ L) /\ PO st1 (T ++ readies) /\
   (forall x, In x readies -> ~ In x dropped) /\ (forall x, In x readies \/ In x dropped -> inQ st x) /\
+  (forall x, In x readies -> cost x <= ch_bal (p_chain st) (t_from x) /\ t_gas x <= ch_gaslimit (p_chain st) /\ ch_nonce (p_chain st) (t_from x) <= t_nonce x) /\
   p_pending st1 = p_pending st /\ p_cfg st1 = p_cfg st /\ p_chain st1 = p_chain st.
 Proof.
   intros a st L T readies dropped st1 HS HP HT E. unfold q_promote_one in E.
   destruct (p_queue st a) as [l|] eqn:Eq.
-  2:{ inversion E; subst. cbn [app]. rewrite app_nil_r. split; [exact HS|]. split; [exact HP|]. split; [intros x []|]. split; [intros x [[]|[]] | tauto]. }
+  2:{ inversion E; subst. cbn [app]. rewrite app_nil_r. split; [exact HS|]. split; [exact HP|]. split; [intros x []|]. split; [intros x [[]|[]]|]. split; [intros x [] | tauto]. }
   destruct (l_qw _ _ HS a l Eq) as [Lq Ha].
   destruct (list_forward (ch_nonce (p_chain st) a) l) as [forwards l1] eqn:E1.
   destruct (list_filter (ch_bal (p_chain st) a) (ch_gaslimit (p_chain st)) l1) as [[drops inv] l2] eqn:E2.
   destruct (list_ready (pn_get a st) l2) as [rd l3] eqn:E3.
   destruct (list_cap (N.to_nat (c_aqueue (p_cfg st))) l3) as [caps l4] eqn:E4.
   inversion E; subst readies dropped st1; clear E.
-  destruct (list_forward_spec _ _ _ _ _ _ _ Lq E1) as [L1 [M1 [D1 _]]].
-  destruct (list_filter_spec _ _ _ _ _ _ _ _ _ L1 E2) as [L2 [M2 [D2 [_ [Hinv _]]]]]. rewrite (Hinv eq_refl) in *.
+  destruct (list_forward_spec _ _ _ _ _ _ _ Lq E1) as [L1 [M1 [D1 Hlow1]]].
+  destruct (list_filter_spec _ _ _ _ _ _ _ _ _ L1 E2) as [L2 [M2 [D2 [_ [Hinv [_ Haff2]]]]]]. rewrite (Hinv eq_refl) in *.
   destruct (list_ready_spec _ _ _ _ _ _ _ L2 E3) as [L3 [M3 [D3 Srd]]].
   destruct (list_cap_spec _ _ _ _ _ _ _ L3 E4) as [L4 [M4 D4]].
   set (st1 := if l_empty l4 then chk l4 (del_queue a st) else put_queue a l4 st).
@@ -149,7 +150,11 @@ Proof.
   assert (HinQ : forall x, In x rd \/ In x (forwards ++ drops ++ caps) -> inQ st x).
   { intros x Hx. assert (Hxl : In x (l_txs l)) by (apply Hmem; right; apply in_app_iff; exact Hx).
     unfold inQ. rewrite (proj1 (lk_mem _ _ _ _ Lq x Hxl)), Eq. exact Hxl. }
-  split; [|split; [|split; [exact Hrd_nd | split; [exact HinQ | tauto]]]].
+  assert (Haffrd : forall x, In x rd -> cost x <= ch_bal (p_chain st) (t_from x) /\ t_gas x <= ch_gaslimit (p_chain st) /\ ch_nonce (p_chain st) (t_from x) <= t_nonce x).
+  { intros x Hx. rewrite (proj1 (lk_mem _ _ _ _ Lq x (Hrd_l x Hx))).
+    assert (H2 : In x (l_txs l2)) by (apply M3; right; exact Hx).
+    destruct (Haff2 x H2) as [Hc Hg]. split; [exact Hc|]. split; [exact Hg|]. apply Hlow1. apply M2. left. exact H2. }
+  split; [|split; [|split; [exact Hrd_nd | split; [exact HinQ | split; [exact Haffrd | tauto]]]]].
   - rewrite app_assoc.
     apply (SL_shrink_queue st st1 L a l (stored l4) (rd ++ forwards ++ drops ++ caps) HS Eq); try assumption.
     intros l0 Hl0. unfold stored in Hl0. destruct (l_empty l4); inversion Hl0; subst. exact L4.
@@ -178,16 +183,18 @@ Qed.
 
 Lemma promote_acc_SL : forall accts st L P D P' D' st1,
   SL st L -> PO st P -> (forall x, In x L <-> In x P \/ In x D) -> (forall x, In x P -> ~ In x D) ->
+  (forall x, In x P -> cost x <= ch_bal (p_chain st) (t_from x) /\ t_gas x <= ch_gaslimit (p_chain st) /\ ch_nonce (p_chain st) (t_from x) <= t_nonce x) ->
   fold_left (fun '(p, d, s) a => let '(p1, d1, s1) := q_promote_one a s in (p ++ p1, d ++ d1, s1)) accts (P, D, st) = (P', D', st1) ->
   exists L1, SL st1 L1 /\ PO st1 P' /\ (forall x, In x L1 <-> In x P' \/ In x D') /\ (forall x, In x P' -> ~ In x D') /\
+  (forall x, In x P' -> cost x <= ch_bal (p_chain st) (t_from x) /\ t_gas x <= ch_gaslimit (p_chain st) /\ ch_nonce (p_chain st) (t_from x) <= t_nonce x) /\
   p_pending st1 = p_pending st /\ p_cfg st1 = p_cfg st /\ p_chain st1 = p_chain st.
 Proof.
-  induction accts as [|a accts IH]; intros st L P D P' D' st1 HS HP HL Hd E; cbn [fold_left] in E.
+  induction accts as [|a accts IH]; intros st L P D P' D' st1 HS HP HL Hd Haf E; cbn [fold_left] in E.
   - inversion E; subst. exists L. tauto.
   - destruct (q_promote_one a st) as [[p1 d1] s1] eqn:Eq.
     destruct (q_promote_one_SL a st L P p1 d1 s1 HS HP (fun t Ht => proj2 (HL t) (or_introl Ht)) Eq)
-      as [S1 [P1 [Hd1 [HQ1 [Pe1 [C1 Ch1]]]]]].
-    destruct (IH s1 (p1 ++ d1 ++ L) (P ++ p1) (D ++ d1) P' D' st1 S1 P1) as [L1 [S' [PO' [M' [Dd' [Pe' [C' Ch']]]]]]].
+      as [S1 [P1 [Hd1 [HQ1 [Haf1 [Pe1 [C1 Ch1]]]]]]].
+    destruct (IH s1 (p1 ++ d1 ++ L) (P ++ p1) (D ++ d1) P' D' st1 S1 P1) as [L1 [S' [PO' [M' [Dd' [Haf' [Pe' [C' Ch']]]]]]]].
     + intros x. rewrite !in_app_iff, HL. tauto.
     + intros x Hx Hx'. apply in_app_iff in Hx. apply in_app_iff in Hx'.
       assert (HLq : forall y, In y L -> ~ inQ st y) by (intros y Hy; apply (l_limbo _ _ HS y Hy)).
@@ -196,8 +203,10 @@ Proof.
       * apply (HLq x); [apply HL; left; exact Hx | apply HQ1; right; exact Hx'].
       * apply (HLq x); [apply HL; right; exact Hx' | apply HQ1; left; exact Hx].
       * apply (Hd1 x Hx Hx').
+    + intros x Hx. rewrite Ch1. apply in_app_iff in Hx. destruct Hx as [Hx|Hx]; [apply Haf, Hx | apply Haf1, Hx].
     + exact E.
-    + exists L1. split; [exact S'|]. split; [exact PO'|]. split; [exact M'|]. split; [exact Dd'|]. split; [congruence | split; congruence].
+    + exists L1. split; [exact S'|]. split; [exact PO'|]. split; [exact M'|]. split; [exact Dd'|].
+      split; [intros x Hx; rewrite <- Ch1; apply Haf', Hx|]. split; [congruence | split; congruence].
 Qed.
 
 (* promoteExecutables *)
@@ -206,9 +215,10 @@ Proof.
   intros accts st HS. unfold promote_executables.
   destruct (fold_left (fun '(p, d, s) a => let '(p1, d1, s1) := q_promote_one a s in (p ++ p1, d ++ d1, s1)) accts ([], [], st))
     as [[P D] st1] eqn:E.
-  destruct (promote_acc_SL accts st [] [] [] P D st1 (SL_of_SInv _ HS)) as [L1 [S1 [PO1 [M1 [D1 [Pe1 [C1 Ch1]]]]]]]; try exact E.
+  destruct (promote_acc_SL accts st [] [] [] P D st1 (SL_of_SInv _ HS)) as [L1 [S1 [PO1 [M1 [D1 [_ [Pe1 [C1 Ch1]]]]]]]]; try exact E.
   { split; [intros t [] | intros t pl [] | intros t ql [] | constructor]. }
   { intros x. cbn. tauto. }
+  { intros x []. }
   { intros x []. }
   destruct (promote_fold_SL P st1 L1 S1 PO1 (fun t Ht => proj2 (M1 t) (or_introl Ht))) as [[L2 [S2 M2]] [Q2 [C2 Ch2]]].
   set (st2 := fold_left (fun s t => promote_tx t s) P st1) in *.
